@@ -523,41 +523,68 @@ def run_diagram_rule(ctx: Ctx, res: Result) -> None:
     else:
         detail = f"a diagram rule without a file is not rejected: with `{show(want)}` {describe_outcome(hits[0])} is reached"
     res.add("C13.R2", f"{aa.relpath}::DiagramRule.assert_applies::file check dominates parsing", ok, detail, where_o(hits[0]) if hits else where(aa, aa.node), kind="dominance")
-    # start / end tags: a search for the tags whose failure leads to a raise and nowhere else
-    searches = [ev for ev in sym.events if ev.kind == "call" and isinstance(ev.result, Opq) and ev.result.kind in ("search", "find", "index")]
+    # start / end tags: for each tag, a search whose "tag absent" outcome leads to a raise and to no verdict
+    KINDS = ("search", "find", "index", "partsep", "split", "contains")
+    searches = [ev for ev in sym.events if ev.kind == "call" and isinstance(ev.result, Opq) and ev.result.kind in KINDS]
     tagged = [ev for ev in searches if START_TAG in _const_texts(ev.result.deps) or END_TAG in _const_texts(ev.result.deps)]
     construct = f"{dr.module.relpath}::DiagramRule.assert_applies::missing tags raise"
     if not tagged:
-        res.undecide("C13.R2", construct, f"no search of the diagram text for {START_TAG} / {END_TAG} (re.search / re.match / str.find / str.index) is reachable from DiagramRule.assert_applies: the tag extraction was not recognised", where(aa, aa.node))
+        res.undecide("C13.R2", construct, f"no search of the diagram text for {START_TAG} / {END_TAG} (re.search / re.match / str.find / index / partition / split / in) is reachable from DiagramRule.assert_applies: the tag extraction was not recognised", where(aa, aa.node))
         return
-    ok, detail, loc = False, "", where(aa, aa.node)
-    for ev in tagged:
+
+    def absent(ev: S.Event) -> Formula:
         r = ev.result
-        texts = _const_texts(r.deps)
-        both = START_TAG in texts and END_TAG in texts
-        if r.kind == "index":
-            caught = swallowed(sym, ev, {"ValueError", "Exception", "BaseException", "<bare>"}, bad)
-            if not caught and all(must(o.path, ev.path) for o in bad) and both:
-                ok, detail = True, f"`{norm(ev.node, 50)}` raises for a text without the tags on every path to the evaluation"
-                break
+        if r.kind == "search":
+            return atom(f"{r.key} is None")
+        if r.kind in ("partsep", "contains"):
+            return f_not(atom(f"bool({r.key})"))
+        return atom(f"notfound({r.key})")
+
+    def judge(ev: S.Event) -> tuple[bool, S.Outcome | None]:
+        """(the 'tag absent' outcome of this search is rejected and reaches no verdict, an escaping verdict if any)"""
+        if ev.result.kind == "index":
+            if swallowed(sym, ev, {"ValueError", "Exception", "BaseException", "<bare>"}, bad):
+                return False, None
+            esc = [o for o in bad if not must(o.path, ev.path)]
+            return not esc, (esc[0] if esc else None)
+        nf = absent(ev)
+        esc = [o for o in bad if consistent(o, nf)]
+        return (not esc and any(sat_path(x.path, nf) for x in rejections(sym))), (esc[0] if esc else None)
+
+    verdicts = {id(ev): judge(ev) for ev in tagged}
+    problems: list[tuple[str, str, str]] = []
+    covered_by: dict[str, S.Event] = {}
+    for tag in (START_TAG, END_TAG):
+        # a search "covers" a tag when its result depends on the tag (needle, or a range / receiver computed from a search for it)
+        cands = [ev for ev in tagged if tag in _const_texts(ev.result.deps)]
+        good = [ev for ev in cands if verdicts[id(ev)][0]]
+        if good:
+            covered_by[tag] = good[0]
             continue
-        nf = atom(f"{r.key} is None") if r.kind == "search" else atom(f"notfound({r.key})")
-        escaping = [o for o in bad if consistent(o, nf)]
-        rejected = any(sat_path(x.path, nf) for x in rejections(sym))
-        if not escaping and rejected and both:
-            ok, detail = True, f"a diagram without {START_TAG} / {END_TAG} (`{norm(ev.node, 50)}` finds nothing) raises {', '.join(sorted({x.exc.split('.')[-1] for x in rejections(sym) if sat_path(x.path, nf)}))}"
-            break
-        if escaping and not detail:
-            o = escaping[0]
-            loc = f"{ev.ctx.relpath}:{getattr(ev.node, 'lineno', 0)}"
+        own = [ev for ev in cands if tag in _const_texts(ev.result.meta[0] if ev.result.meta else frozenset())] or cands
+        blamed = [ev for ev in own if verdicts[id(ev)][1] is not None]
+        if blamed:
+            ev = blamed[0]
+            o = verdicts[id(ev)][1]
+            loc_ = f"{ev.ctx.relpath}:{getattr(ev.node, 'lineno', 0)}"
             if must(o.path, ev.path):
-                detail = f"when `{norm(ev.node, 50)}` finds no tags, {describe_outcome(o)} is still reached: a diagram without start/end tags no longer raises a parsing error"
+                problems.append((tag, f"when `{norm(ev.node, 60)}` in {ev.ctx.qualname} does not find {tag}, {describe_outcome(o)} is still reached (the 'not found' outcome of this search is never tested): a diagram without {tag} no longer raises a parsing error", loc_))
             else:
-                detail = f"{describe_outcome(o)} is reachable on a path on which the tag search `{norm(ev.node, 50)}` does not run in this call (`{show(ev.cond)[:100]}` does not hold): nothing rejects a diagram without start/end tags there"
-    if not ok and not detail:
-        res.undecide("C13.R2", construct, f"the searches for the diagram tags ({', '.join(norm(ev.node, 40) for ev in tagged[:3])}) do not depend on both {START_TAG} and {END_TAG}, or their failure is not tested in a recognised way", where(aa, aa.node))
-        return
-    res.add("C13.R2", construct, ok, detail, loc, kind="dominance")
+                problems.append((tag, f"{describe_outcome(o)} is reachable on a path on which the search for {tag} (`{norm(ev.node, 50)}`) does not run in this call (`{show(ev.cond)[:100]}` does not hold): nothing rejects a diagram without {tag} there", loc_))
+        elif own:
+            problems.append((tag, "?", ""))
+        else:
+            problems.append((tag, "-", ""))
+    real = [p_ for p_ in problems if p_[1] not in ("?", "-")]
+    if real:
+        res.add("C13.R2", construct, False, "; ".join(p_[1] for p_ in real), real[0][2], kind="dominance")
+    elif problems:
+        missing = [p_[0] for p_ in problems]
+        res.undecide("C13.R2", construct, f"no recognised search of the diagram text depends on {' / '.join(missing)}, or its 'not found' outcome is not tested in a recognised way ({', '.join(norm(ev.node, 40) for ev in tagged[:3])})", where(aa, aa.node))
+    else:
+        evs = list({id(e_): e_ for e_ in covered_by.values()}.values())
+        raised = sorted({x.exc.split(".")[-1] for x in rejections(sym) for e_ in evs if e_.result.kind != "index" and sat_path(x.path, absent(e_))})
+        res.add("C13.R2", construct, True, f"a diagram without {START_TAG} / {END_TAG} ({', '.join('`' + norm(e_.node, 40) + '`' for e_ in evs)} finds nothing) raises {', '.join(raised) or 'the error of the search itself'} and reaches no verdict", where(aa, aa.node), kind="dominance")
 
 
 # --------------------------------------------------------------------------- R2: entry point options
